@@ -666,7 +666,7 @@ outerLoop:
 	var cumsum pr.Float
 	for i, percentage := range intrinsicPercentages {
 		u := pr.Min(percentage, 100-cumsum)
-		cumsum += percentage
+		cumsum += u
 		intrinsicPercentages[i] = u
 	}
 
